@@ -86,7 +86,7 @@ props["C10"] = dict(title="Numeric literals denote the correctly rounded value i
   bounds="isDigit on all 2^32 code points; transliteration of every single code point and of texts of <=3 (thorough 5) code points; the number branch of scanToken on n<=6 code points (extent, dot rule, ParseFloat applied to the transliterated lexeme, range error => diagnostic and no token); digit-script swap on n<=3 (thorough 5); integer literals of 3 and 12 (thorough 18, 19) digits of either script against the exact rounding contract",
   assumptions=["strconv.ParseFloat is uninterpreted except in VH_integer, where the stub carries its documented contract for integer numerals of <= 19 digits (round-to-nearest-even of the exact value), so 'denotes the nearest double' IS decided for integer literals up to 19 digits (12 in the quick tier) and any way of computing the literal must agree with it; fractions, longer literals and overflow detection remain strconv's (not decided)", "VH_integer uses the position-wise summary of ConvertBanglaDigitsToASCII justified by VH_translit1/VH_translitN (which run the real function)"]+A_COMMON[:1],
   quick=[J("lexer","VH_isDigit"), J("lexer","VH_translit1"), J("lexer","VH_translitN",3), J("lexer","VH_step",4,0), J("lexer","VH_step",6,0), J("lexer","VH_swap",3), J("lexer","VH_number",4), J("lexer","VH_integer",3), J("lexer","VH_integer",12)],
-  thorough=[J("lexer","VH_isDigit"), J("lexer","VH_translit1"), J("lexer","VH_translitN",5), J("lexer","VH_step",6,0), J("lexer","VH_step",8,0), J("lexer","VH_swap",5), J("lexer","VH_number",6), J(I,"VH_swapNum",2), J("lexer","VH_integer",3), J("lexer","VH_integer",12), J("lexer","VH_integer",18), J("lexer","VH_integer",19)],
+  thorough=[J("lexer","VH_isDigit"), J("lexer","VH_translit1"), J("lexer","VH_translitN",5), J("lexer","VH_step",6,0), J("lexer","VH_step",8,0), J("lexer","VH_swap",5), J("lexer","VH_number",6), J(I,"VH_swapNum",2), J("lexer","VH_integer",3), J("lexer","VH_integer",12), J("lexer","VH_integer",18, query_timeout_s=600), J("lexer","VH_integer",19, query_timeout_s=600)],
   only_ids="^(isDigit-.*|translit.*|number-.*|swap-.*|end|progress|literal-.*|integer-.*)$")
 
 # ---------------- C11 / C12 / C13 ----------------
